@@ -53,6 +53,16 @@ func (c *Ctx) errNameOf(v ssa.Value) string {
 	if mi, ok := v.(*ssa.MakeInterface); ok {
 		v = origin(mi.X)
 	}
+	if g := globalLoad(v); g != nil {
+		// an error value allocated once and kept in a package-level variable that nothing else is
+		// ever assigned to (ext_y3.go): the value the initialiser stores
+		if iv := c.globalOnlyValue(g); iv != nil {
+			if _, again := origin(iv).(*ssa.UnOp); !again {
+				return c.errNameOf(iv)
+			}
+		}
+		return ""
+	}
 	switch x := v.(type) {
 	case *ssa.Call:
 		sc := x.Common().StaticCallee()
@@ -344,6 +354,12 @@ func runC11(c *Ctx) {
 			if (globalLoad(m.x) == sentinel || globalLoad(m.y) == sentinel) && m.op == token.NEQ {
 				excluded = true
 				why = "dominated by `err != ErrExecutionLimitExceeded`"
+			}
+		}
+		if !excluded {
+			// the test may stand at the call of the helper that holds the dispatch (ext_y3.go)
+			if okx, w := c.sentinelExcludedAt(hc.Block(), sentinel, nil, 0); okx {
+				excluded, why = true, w
 			}
 		}
 		c.check(excluded, "L2-SENTINEL", fnName, "budget error excluded from error-handler dispatch", hc.Pos(), why,
